@@ -454,7 +454,7 @@ func (it *FlatIterator) Reset() {
 		case it.IsScalar():
 			it.nextIndex = 0
 		case it.isVector:
-			it.nextIndex = (it.shape[0] - 1) * it.strides[0]
+			it.nextIndex = (it.shape[it.veclikeDim] - 1) * it.strides[it.veclikeDim]
 		// case it.IsRowVec():
 		// 	it.nextIndex = (it.shape[1] - 1) * it.strides[1]
 		// case it.IsColVec():
